@@ -150,10 +150,15 @@ fn ro_reply(b: u64, seed: u64) -> Value {
         "honest_peers_in_table": snap.routing_table.nodes.len()})
 }
 
-fn adaptive(b: u64, variant: &str, seed: u64) -> Value {
+fn adaptive(b: u64, variant_at: &str, seed: u64) -> Value {
     let spec = NetSpec { servers: 6, clients: 0, plan: "public".into(), join: "sequential".into(), dead_bootstrap: 0, seed };
     let mut net = build(&spec);
-    let ip = public_ip(77);
+    // "reachable@a.b.c.d": the same scenario with the node at that (public) address
+    let (variant, at) = match variant_at.split_once('@') {
+        Some((v, a)) => (v, a.parse::<Ipv4Addr>().ok()),
+        None => (variant_at, None),
+    };
+    let ip = at.unwrap_or(public_ip(77));
     let mut o = NodeOpts::client(ip, &net.boot);
     o.nat = variant.starts_with("nat");
     // "explicit public_ip configurations": the operator states the address, the node is still adaptive (no server_mode) and
@@ -205,7 +210,7 @@ fn adaptive(b: u64, variant: &str, seed: u64) -> Value {
                 unfirewalled_minute = minute;
             }
             if minute % 6 == 0 {
-                samples.push(json!([minute, s.server_mode, s.firewalled, s.public_address]));
+                samples.push(json!([minute, s.server_mode, s.firewalled, s.public_address.clone().unwrap_or("none".into())]));
             }
         }
     }
@@ -217,8 +222,8 @@ fn adaptive(b: u64, variant: &str, seed: u64) -> Value {
     let answers = outs.iter().any(|d| d.to == stranger);
     let last_ro = net.sim.log.iter().rev().find(|r| r.from == aaddr && r.msg.as_ref().map(|m| m.is_request()).unwrap_or(false)).and_then(|r| r.msg.as_ref().and_then(|m| m.ro));
     let id = id_of_hex(&s.id);
-    json!({"e":"adaptive","b":b,"variant":variant,"minutes":(net.sim.now_ns() - t0) / MS / 60_000,"server_mode":s.server_mode,"firewalled":s.firewalled,
-        "public_address":s.public_address,"expected_address":aaddr.to_string(),"self_ping_seen":self_ping,"switch_minute":switch_minute,"unfirewalled_minute":unfirewalled_minute,
+    json!({"e":"adaptive","b":b,"variant":variant,"address":ip.to_string(),"minutes":(net.sim.now_ns() - t0) / MS / 60_000,"server_mode":s.server_mode,"firewalled":s.firewalled,
+        "public_address":s.public_address.clone().unwrap_or("none".into()),"expected_address":aaddr.to_string(),"self_ping_seen":self_ping,"switch_minute":switch_minute,"unfirewalled_minute":unfirewalled_minute,
         "answers_ping":answers,"last_request_ro":last_ro.map(|x| x as i64).unwrap_or(-1),"id_valid_for_ip":crypto::bep42_valid(&id, ip),
         "routing_table_size":s.routing_table.size,"samples":samples})
 }
@@ -263,9 +268,9 @@ fn revote(b: u64, seed: u64) -> Value {
     let s3 = sim.snapshot(a).expect("snap");
     let pinged_wrong = sim.log.iter().any(|r| r.from == aaddr && r.to == wrong && r.msg.as_ref().map(|m| m.q.as_deref() == Some("ping")).unwrap_or(false));
     json!({"e":"revote","b":b,"confirmed_first": !s1.firewalled && s1.public_address == Some(aaddr.to_string()),
-        "address_after_revote": s2.public_address, "wrong_address": wrong.to_string(),
+        "address_after_revote": s2.public_address.clone().unwrap_or("none".into()), "wrong_address": wrong.to_string(),
         "firewalled_after_revote": s2.firewalled, "pinged_wrong_address": pinged_wrong,
-        "server_mode_after_refresh": s3.server_mode, "firewalled_after_refresh": s3.firewalled, "address_after_refresh": s3.public_address})
+        "server_mode_after_refresh": s3.server_mode, "firewalled_after_refresh": s3.firewalled, "address_after_refresh": s3.public_address.clone().unwrap_or("none".into())})
 }
 
 fn explicit(b: u64, seed: u64) -> Value {
@@ -342,6 +347,16 @@ pub fn run(args: &Args) -> i32 {
     let variants: Vec<&str> = if thorough { ["reachable", "nat", "reachable_public_ip", "nat_public_ip", "reachable_busy", "reachable_busy_public_ip", "nat_busy"].iter().cycle().take(56).cloned().collect() } else { vec!["reachable", "nat", "reachable_public_ip", "nat_public_ip", "reachable_busy", "reachable_busy", "reachable_busy_public_ip", "nat_busy"] };
     for (i, v) in variants.iter().enumerate() {
         out.line(&adaptive(b, v, seed ^ (i as u64 * 101)));
+        b += 1;
+    }
+    // the same at public addresses right next to the special-purpose ranges (shared address space 100.64/10, 10/8, 172.16/12,
+    // 192.168/16, 169.254/16, 127/8, 198.18/15, multicast): what holds for one public address holds for all of them
+    let edges = ["100.63.255.254", "100.128.0.1", "100.200.7.9", "172.15.255.254", "172.32.0.1", "192.167.255.254", "192.169.0.1", "169.253.255.254",
+        "169.255.0.1", "126.255.255.254", "128.0.0.1", "9.255.255.254", "11.0.0.1", "223.255.255.1", "1.0.0.1", "198.17.255.254", "198.20.0.1"];
+    for (i, a) in edges.iter().enumerate() {
+        if thorough || i % 2 == 1 {
+            out.line(&adaptive(b, &format!("{}@{a}", if i % 3 == 0 { "reachable_public_ip" } else { "reachable" }), seed ^ (i as u64 * 211 + 9)));
+        }
         b += 1;
     }
     out.line(&explicit(b, seed));
